@@ -1,3 +1,4 @@
+mod conc;
 mod drive;
 mod gate;
 mod pool;
@@ -26,6 +27,7 @@ fn main() {
             max_mismatch_traces: arg(&args, "--max-mismatch").and_then(|v| v.parse().ok()).unwrap_or(200),
             sample_every: arg(&args, "--sample-every").and_then(|v| v.parse().ok()).unwrap_or(500),
         }),
+        "worker" => replay::worker(arg(&args, "--variants").map(|v| v != "default").unwrap_or(true), arg(&args, "--sample-every").and_then(|v| v.parse().ok()).unwrap_or(500)),
         "drive" => drive::run(drive::DriveCfg {
             out_dir: arg(&args, "--out").unwrap_or_else(|| "out/drive".into()),
             seed: arg(&args, "--seed").and_then(|v| v.parse().ok()).unwrap_or(1),
@@ -35,6 +37,24 @@ fn main() {
             mode: arg(&args, "--mode").unwrap_or_else(|| "mixed".into()),
             nh: arg(&args, "--nh").and_then(|v| v.parse().ok()).unwrap_or(4),
         }),
+        "drive-one" => drive::run_one(
+            drive::DriveCfg {
+                out_dir: arg(&args, "--out").unwrap(),
+                seed: arg(&args, "--seed").and_then(|v| v.parse().ok()).unwrap_or(1),
+                files: 1,
+                histories: arg(&args, "--histories").and_then(|v| v.parse().ok()).unwrap_or(10),
+                ops: arg(&args, "--ops").and_then(|v| v.parse().ok()).unwrap_or(100),
+                mode: arg(&args, "--mode").unwrap_or_else(|| "mixed".into()),
+                nh: arg(&args, "--nh").and_then(|v| v.parse().ok()).unwrap_or(4),
+            },
+            arg(&args, "--file").and_then(|v| v.parse().ok()).unwrap_or(0),
+        ),
+        "conc" => conc::run(
+            &arg(&args, "--out").unwrap_or_else(|| "out/conc".into()),
+            arg(&args, "--sample-every").and_then(|v| v.parse().ok()).unwrap_or(50),
+            arg(&args, "--max-runs").and_then(|v| v.parse().ok()).unwrap_or(0),
+        ),
+        "conc-probe" => conc::probe(),
         "rerun" => drive::rerun(&arg(&args, "--in").expect("--in"), &arg(&args, "--out").expect("--out")),
         _ => {
             eprintln!("usage: lsverif replay|drive|... [options]");
